@@ -67,6 +67,7 @@ class LogixController(Module):
         self._page_rng = self.sim.stream("logix/page")
         self._bool_rng = self.sim.stream("logix/bool")
         self.exec_log = []          # executed tag services: dicts (for C02/C04 oracles)
+        self._last_frag_empty = False
 
     # ---- sizes ----------------------------------------------------------
     def elem_size(self, tname):
@@ -315,6 +316,12 @@ class LogixController(Module):
             k = self.frag_cap(min(avail, len(rest)), a.esize)
             if len(rest) <= avail and self.choices.get("frag", "max") == "max":
                 k = len(rest)
+            # "any fragment length the target chooses": occasionally a partial reply that carries the type only
+            if self.choices.get("frag") in ("mixed", "random") and len(rest) > 0 and not self._last_frag_empty \
+                    and self._frag_rng.random() < 0.04:
+                k = 0
+                self.sim.probe("read_fragment_empty")
+            self._last_frag_empty = k == 0
         else:
             k = min(avail, len(rest))
             if k < len(rest) and a.esize > 1:
